@@ -473,38 +473,17 @@ def settings_shared(rep, model, det):
         rep.ok('SETTINGS-SHARED', 'group recomputation', gsite, found='the group lowers its own thresholds and hands them down: members need not share the dictionary')
         return
     rep.ok('SETTINGS-SHARED', 'group recomputation', gsite, found=f'each member lowers its own stored thresholds ({sorted(from_members)}): they must be the group\'s object')
-    # (a) fit constructs members from self.thresholds itself
+    # (a) fit constructs members from self.thresholds itself (alias analysis: the object reaching the constructor's thresholds parameter)
     fsite = f'{fit_.path}:{fit_.node.lineno} BycycleGroup.fit'
-    iparams = [p for p in init.params if p != 'self']
-    ctor_calls = [n for n in ast.walk(fit_.node) if isinstance(n, ast.Call) and isinstance(n.func, ast.Name) and model.resolve_class(fit_, n.func.id) == BY] \
-        if hasattr(model, 'resolve_class') else [n for n in ast.walk(fit_.node) if isinstance(n, ast.Call) and isinstance(n.func, ast.Name) and n.func.id == BY.rsplit('.', 1)[1]]
-    assigns = {}
-    for n in ast.walk(fit_.node):
-        if isinstance(n, ast.Assign) and len(n.targets) == 1 and isinstance(n.targets[0], ast.Name):
-            assigns.setdefault(n.targets[0].id, []).append(n.value)
-
-    def is_self_thresholds(v):
-        if isinstance(v, ast.Attribute) and isinstance(v.value, ast.Name) and v.value.id == 'self' and v.attr == 'thresholds':
-            return True
-        return isinstance(v, ast.Name) and v.id in assigns and all(is_self_thresholds(x) for x in assigns[v.id])
-    bad = []
-    for c in ctor_calls:
-        arg = None
-        idx = iparams.index('thresholds') if 'thresholds' in iparams else None
-        if idx is not None and idx < len(c.args):
-            arg = c.args[idx]
-        for k in c.keywords:
-            if k.arg == 'thresholds':
-                arg = k.value
-        if arg is None or not is_self_thresholds(arg):
-            bad.append(f'line {c.lineno}: thresholds={ast.unparse(arg) if arg is not None else "<default>"}')
-    if not ctor_calls:
+    ctors = [(ln, bind) for ln, cls, bind in det[fit_.qual].ctor_calls if cls == BY]
+    bad = [f'line {ln}: thresholds <- {sorted(map(str, bind.get("thresholds", {("default",)})))}' for ln, bind in ctors if ('Self', 'thresholds') not in bind.get('thresholds', set())]
+    if not ctors:
         rep.ok('SETTINGS-SHARED', 'fit:members constructed from self.thresholds', fsite, found='no direct Bycycle(...) construction in fit: not decided here (see INDEX-AGREE)', nontrivial=False)
     elif bad:
-        rep.violation('SETTINGS-SHARED', 'fit:members constructed from self.thresholds', fsite, expected='Bycycle(..., self.thresholds, ...) at every construction',
+        rep.violation('SETTINGS-SHARED', 'fit:members constructed from self.thresholds', fsite, expected='the group\'s own thresholds dictionary reaches the thresholds parameter of every member',
                       found='; '.join(bad) + ': the member holds a different dictionary, a later edit of the group thresholds does not reach it')
     else:
-        rep.ok('SETTINGS-SHARED', 'fit:members constructed from self.thresholds', fsite, found=f'{len(ctor_calls)} constructions pass self.thresholds itself')
+        rep.ok('SETTINGS-SHARED', 'fit:members constructed from self.thresholds', fsite, found=f'{len(ctors)} constructions receive self.thresholds itself')
     # (b) the constructor keeps the object it is given
     isite = f'{init.path}:{init.node.lineno} {init.qual.rsplit(".", 2)[-2]}.__init__'
     def held_by(fn, param, depth=0):
